@@ -89,7 +89,11 @@ def scenarios_for(prop, tier, rng):
         cases, r = tlc_cases("shape", 0, f"{prop}-gen"); gens.append(r)
         if not thorough:
             rng.shuffle(cases); cases = cases[:200]
-        return agentgen.shape_scenarios(cases, prop), gens, {"statement_shapes": len(cases)}
+        sc = agentgen.shape_scenarios(cases, prop)
+        hc, r2 = tlc_cases("shapehist", 1 if thorough else 0, f"{prop}-gen-hist"); gens.append(r2)
+        sh = agentgen.shapehist_scenarios(hc, 49, prop)
+        return sc + sh, gens, {"statement_shapes": len(cases), "statement_shape_histories": len(hc),
+                               "routers_with_shape_histories(one process per run + one daemon process)": len(sh)}
     raise ToolError("no scenarios for " + prop)
 
 DATA_INVS = {"C01": "InvConverged InvReadBack InvIdempotent", "C02": "InvUpdateSafe", "C03": "InvUntouched"}
